@@ -252,6 +252,51 @@ def c12_dates(m, o):
     return {"checks": checks, "violations": viol}
 
 
+def c12_grid(m, o):
+    """decimal time specifications: whenever the constructor accepts (start, end, timestep), the model times are
+    start + k * timestep for k = 0..(end - start) / timestep and the outputs have one row per time"""
+    import random
+    from fractions import Fraction
+    from summer2 import CompartmentalModel
+    rng = random.Random(o.get("seed", 0))
+    viol, checks, accepted = [], 0, 0
+    specs = [(0, 0.3, 0.1), (0, 0.6, 0.2), (0, 0.7, 0.1), (0, 1.2, 0.4), (0, 3.3, 1.1), (0, 0.35, 0.05), (1, 1.3, 0.1),
+             (0, 2.1, 0.7), (0, 0.9, 0.3), (2, 2.6, 0.2)]
+    for _ in range(o.get("n", 40)):
+        dig = rng.choice([1, 1, 2, 3])
+        h = Fraction(rng.randint(1, 30), 10 ** dig)
+        t0 = Fraction(rng.randint(-50, 200), 10 ** rng.choice([0, 1, dig]))
+        k = rng.randint(1, 40)
+        specs.append((float(t0), float(t0 + k * h), float(h)))
+    for t0, t1, h in specs:
+        try:
+            mm = CompartmentalModel([t0, t1], ["A", "B"], ["B"], timestep=h)
+        except (KeyboardInterrupt, SystemExit):
+            raise
+        except BaseException:  # noqa
+            continue          # refusing a specification is not a misaligned output
+        accepted += 1
+        n_exact = (Fraction(repr(t1)) - Fraction(repr(t0))) / Fraction(repr(h))
+        checks += 1
+        if n_exact.denominator != 1:
+            viol.append("times (%r, %r) with timestep %r accepted although the timestep does not divide the span" % (t0, t1, h))
+            continue
+        n = int(n_exact)
+        ts = np.asarray(mm.times, dtype=float)
+        if len(ts) != n + 1 or np.abs(ts - (t0 + h * np.arange(n + 1))).max() > 1e-9 * (1 + abs(t1)):
+            viol.append("times (%r, %r) timestep %r: expected %d model times start + k * timestep, got %d: %s" % (
+                t0, t1, h, n + 1, len(ts), ts[:4]))
+            continue
+        if n <= 60:
+            mm.set_initial_population({"A": 10.0, "B": 5.0})
+            mm.add_transition_flow("ab", 0.5, "A", "B")
+            mm.run(solver="euler", jit=False)
+            checks += 1
+            if np.asarray(mm.outputs).shape[0] != n + 1 or len(mm.get_outputs_df().index) != n + 1:
+                viol.append("times (%r, %r) timestep %r: outputs have %d rows for %d times" % (t0, t1, h, np.asarray(mm.outputs).shape[0], n + 1))
+    return {"checks": checks, "violations": viol[:8], "accepted": accepted}
+
+
 def c07(m, o):
     """fixed-step solvers follow the classical recurrences with step = timestep (re-derived from
     get_comp_rates); row 0 is the initial state"""
@@ -767,6 +812,20 @@ def c09(m, o):
             continue
         checks += 1
         same(ref, outs(m2), "partition dyn=%s" % dyn)
+    # 3b. a runner built with other values for the dynamic parameters: the run-time values are the ones that count
+    other = {k: v * 2 + 0.5 for k, v in p.items()}
+    for dyn in ([None] + subsets[1: (64 if o.get("exhaustive") else 4)]):
+        m2, _, _ = impl.build(dict(prog, obs=[]))
+        dn = used if dyn is None else dyn
+        base = {k: (other[k] if k in dn else v) for k, v in p.items()}
+        try:
+            r = m2.get_runner(base, jit=False, solver=solver, **({} if dyn is None else {"dyn_params": dyn}))
+            r.run({k: p[k] for k in dn})
+        except BaseException as e:  # noqa
+            viol.append("runner built with other values, dyn=%s raises %r" % (dyn, e))
+            continue
+        checks += 1
+        same(ref, outs(m2), "runner built with other values for the dynamic parameters %s" % (dn,))
     # 4. defaults fill in omitted values; supplied values win
     if used:
         m3, _, _ = impl.build(dict(prog, obs=[]))
@@ -1411,9 +1470,54 @@ def c11(m, o):
     return {"checks": checks, "violations": viol[:10]}
 
 
+def c10_axis(m, o):
+    """a time function given another x axis (a compartment value, a shifted / scaled time, a parameter) takes, at
+    (t, x), the value the same function of plain time takes at t' = the axis evaluated at (t, x)"""
+    import impl
+    import random
+    from fractions import Fraction
+    from jax import numpy as jnp
+    rng = random.Random(o.get("seed", 0))
+    viol, checks = [], 0
+    p = {"d": 0.75, "s": 1.5}
+    for case in range(o.get("n", 12)):
+        kind = ["sig", "lin", "pw", "sig"][case % 4]
+        npts = rng.randint(2, 5)
+        xs = sorted(rng.sample(range(0, 40), npts))
+        ys = [rng.randint(1, 16) / 8 for _ in range(npts + (1 if kind == "pw" else 0))]
+        axis = rng.choice([{"c": 0}, {"-": ["t", {"p": "d"}]}, {"+": [{"*": [{"p": "s"}, "t"]}, {"/": [{"c": 1}, "8"]}]},
+                           {"*": [{"c": 1}, "1/4"]}, {"p": "s"}])
+        def fn(ax):
+            body = [ax, [str(v) for v in (xs[:-1] if kind == "pw" and False else xs)], [str(Fraction(v).limit_denominator(64)) for v in ys]]
+            if kind == "sig" and case % 8 >= 4:
+                body.append("4")
+            return {kind: body}
+        def prog(ax):
+            return {"times": ["0", "4", "1"], "comps": ["A", "B"], "inf": ["B"], "obs": [],
+                    "ops": [{"op": "pop", "dist": {"A": "70", "B": "30"}},
+                            {"op": "flow", "kind": "transition", "name": "ab", "param": fn(ax), "src": "A", "dst": "B"}]}
+        ma, ea, wa = impl.build(prog(axis))
+        mb, eb, wb = impl.build(prog("t"))
+        if ea is not None or eb is not None:
+            viol.append("c10_axis: program does not build: %s %s" % (wa, wb))
+            continue
+        ra, rb = ma.get_runner(p, jit=False), mb.get_runner(p, jit=False)
+        for k in range(4):
+            t = rng.randint(0, 160) / 4
+            x = [rng.randint(0, 320) / 4, rng.randint(0, 320) / 4]
+            tprime = _pyexpr(axis, p, t, x)
+            a = float(np.asarray(ra.impl_dict["one_step"](p, t, jnp.array(x)).flow_rates)[0])
+            b = float(np.asarray(rb.impl_dict["one_step"](p, tprime, jnp.array(x)).flow_rates)[0])
+            checks += 1
+            if abs(a - b) > 1e-9 * (1 + abs(b)):
+                viol.append("%s interpolation over x axis %s at t=%g x=%s: rate %.10g, but the function of plain time at %g gives %.10g"
+                            % (kind, json.dumps(axis), t, x, a, tprime, b))
+    return {"checks": checks, "violations": viol[:8]}
+
+
 ORACLES = {"c01": c01, "c02": c02, "c18": c18}
 MODEL_ORACLES = {"c02_traj": c02_traj, "c13": c13, "c12": c12, "c12_dates": c12_dates,
-                 "c07": c07, "c07_closed": c07_closed, "c16": c16, "c14": c14, "c08": c08, "c09": c09, "c10": c10, "c04": c04, "c18_traj": c18_traj, "c06": c06, "c05": c05, "c03": c03, "c15": c15, "c11": c11}
+                 "c07": c07, "c07_closed": c07_closed, "c16": c16, "c14": c14, "c08": c08, "c09": c09, "c10": c10, "c04": c04, "c18_traj": c18_traj, "c06": c06, "c05": c05, "c03": c03, "c15": c15, "c11": c11, "c10_axis": c10_axis, "c12_grid": c12_grid}
 
 
 def run_oracle(m, o):
